@@ -190,7 +190,7 @@ Definition pow10_ok (k : Z) : bool :=
   | _ => false
   end.
 
-Lemma pow10_ok_all : forallb pow10_ok (zrange (-290) 290) = true.
+Lemma pow10_ok_all : forallb pow10_ok (zrange (-308) 308) = true.
 Proof. vm_cast_no_check (eq_refl true). Qed.
 
 Lemma bpow_R2 e : bpow radix2 e = if 0 <=? e then IZR (2 ^ e) else (/ IZR (2 ^ (- e)))%R.
@@ -200,10 +200,10 @@ Proof.
   - replace e with (- (- e)) at 1 by lia. rewrite bpow_opp. rewrite <- (IZR_Zpower radix2 (- e)) by lia. reflexivity.
 Qed.
 
-Lemma pow10_rel k : -290 <= k <= 290 ->
+Lemma pow10_rel k : -308 <= k <= 308 ->
   exists (P : bin64) d, pow10 k = B2SF P /\ is_finite P = true /\ B2R P = (Rp10 k * (1 + d))%R /\ (Rabs d <= uu)%R.
 Proof.
-  intros Hk. pose proof (zrange_forall _ (-290) 290 pow10_ok_all k Hk) as H. cbv beta in H. unfold pow10_ok in H.
+  intros Hk. pose proof (zrange_forall _ (-308) 308 pow10_ok_all k Hk) as H. cbv beta in H. unfold pow10_ok in H.
   destruct (pow10 k) as [s|s| |s m e] eqn:Ep; try discriminate. destruct s; [discriminate|].
   apply andb_true_iff in H. destruct H as [Hb H]. cbv zeta in H. apply Z.leb_le in H.
   set (A := Z.pos m * 2 ^ Z.max e 0 * 10 ^ Z.max (- k) 0) in *. set (B := 10 ^ Z.max k 0 * 2 ^ Z.max (- e) 0) in *.
@@ -580,7 +580,7 @@ Proof.
 Qed.
 
 Lemma dropped_digits_rel (neg : bool) n T R e x :
-  1844674407370955160 <= n < 2 ^ 64 -> 0 <= T -> 0 <= R < 10 ^ T -> -290 <= e <= 285 ->
+  10000000000000000 <= n < 2 ^ 64 -> 0 <= T -> 0 <= R < 10 ^ T -> -290 <= e <= 285 ->
   approx 5 x ((if neg then - IZR n else IZR n) * Rp10 e) ->
   let V := ((if neg then - IZR (n * 10 ^ T + R) else IZR (n * 10 ^ T + R)) * Rp10 (e - T))%R in
   (Rabs (x - V) <= 7 * uu * Rabs V)%R /\ (Rabs (x - round64 V) <= / 100000000000000 * Rabs (round64 V))%R.
@@ -588,14 +588,14 @@ Proof.
   intros Hn HT HR He (eps & Hx & Heps). cbv zeta.
   set (a := if neg then (- IZR n)%R else IZR n) in *.
   assert (HpT : (0 < IZR (10 ^ T))%R) by (apply IZR_pow10_pos; exact HT).
-  assert (Hn1 : (1844674407370955160 <= IZR n)%R) by (apply IZR_le; lia).
+  assert (Hn1 : (10000000000000000 <= IZR n)%R) by (apply IZR_le; lia).
   set (rho := (IZR R / (IZR n * IZR (10 ^ T)))%R).
-  assert (Hrho : (0 <= rho < / 1844674407370955160)%R).
+  assert (Hrho : (0 <= rho < / 10000000000000000)%R).
   { unfold rho. assert (0 <= IZR R)%R by (apply IZR_le; lia). assert (IZR R < IZR (10 ^ T))%R by (apply IZR_lt; lia).
     assert (Hden : (0 < IZR n * IZR (10 ^ T))%R) by nra.
     split; [apply Rmult_le_pos; [assumption|apply Rlt_le, Rinv_0_lt_compat; exact Hden]|].
     apply Rmult_lt_reg_r with (IZR n * IZR (10 ^ T))%R; [exact Hden|]. unfold Rdiv. rewrite Rmult_assoc, Rinv_l, Rmult_1_r by lra.
-    assert (IZR (10 ^ T) <= / 1844674407370955160 * (IZR n * IZR (10 ^ T)))%R by (rewrite <- Rmult_assoc; assert (1 <= / 1844674407370955160 * IZR n)%R by (apply Rmult_le_reg_l with 1844674407370955160%R; [lra|]; rewrite <- Rmult_assoc, Rinv_r, Rmult_1_l by lra; lra); nra).
+    assert (IZR (10 ^ T) <= / 10000000000000000 * (IZR n * IZR (10 ^ T)))%R by (rewrite <- Rmult_assoc; assert (1 <= / 10000000000000000 * IZR n)%R by (apply Rmult_le_reg_l with 10000000000000000%R; [lra|]; rewrite <- Rmult_assoc, Rinv_r, Rmult_1_l by lra; lra); nra).
     lra. }
   assert (HV : ((if neg then - IZR (n * 10 ^ T + R) else IZR (n * 10 ^ T + R)) * Rp10 (e - T) = a * Rp10 e * (1 + rho))%R).
   { replace e with (e - T + T) at 2 by lia. rewrite Rp10_add, (Rp10_nonneg T HT). rewrite plus_IZR, mult_IZR.
@@ -606,11 +606,11 @@ Proof.
   assert (Heps' : (Rabs ((1 + eps) / (1 + rho) - 1) <= 7 * uu)%R).
   { replace ((1 + eps) / (1 + rho) - 1)%R with ((eps - rho) / (1 + rho))%R by (field; lra).
     unfold Rdiv. rewrite Rabs_mult. assert (He6 : (Rabs eps <= 6 * uu)%R) by lra.
-    assert (H1 : (Rabs (eps - rho) <= 6 * uu + / 1844674407370955160)%R).
+    assert (H1 : (Rabs (eps - rho) <= 6 * uu + / 10000000000000000)%R).
     { eapply Rle_trans; [apply Rabs_triang|]. rewrite Rabs_Ropp, (Rabs_pos_eq rho) by lra. lra. }
     assert (H2 : (Rabs (/ (1 + rho)) <= 1)%R).
     { rewrite Rabs_pos_eq by (apply Rlt_le, Rinv_0_lt_compat; lra). rewrite <- Rinv_1. apply Rinv_le; lra. }
-    assert (H3 : (/ 1844674407370955160 <= uu)%R).
+    assert (H3 : (/ 10000000000000000 <= uu)%R).
     { unfold uu. apply Rinv_le; [apply IZR_lt; reflexivity|apply IZR_le; vm_compute; discriminate]. }
     pose proof (Rabs_pos (eps - rho)). pose proof (Rabs_pos (/ (1 + rho))). nra. }
   apply (rel_vs_rounded x _ _ Hx' Heps').
@@ -682,7 +682,7 @@ Proof.
   destruct (parse_float_of_scan sg M tail n dotv trunkv Hsg Hns Hscan Hnd) as (k & ->). fold me E.
   destruct (pf_value_accuracy_proof (sign_neg sg) n me E ltac:(lia) Hme HE He) as (v & -> & HvF & Hva). cbn [rbind].
   exists v, k. split; [reflexivity|]. split; [exact HvF|]. rewrite dec_real_Rp10 in Hva.
-  apply (dropped_digits_rel (sign_neg sg) n T R (E - me) (B2R v) Hn HT HR ltac:(lia) Hva).
+  apply (dropped_digits_rel (sign_neg sg) n T R (E - me) (B2R v) ltac:(lia) HT HR ltac:(lia) Hva).
 Qed.
 
 Lemma dec_value_from_lin ds : all_digits ds -> forall n, dec_value_from n ds = n * 10 ^ len ds + dec_value ds.
@@ -998,3 +998,215 @@ Qed.
 Example accuracy_ex :
   dec_value ([49] ++ [50; 53]) = 125 /\ fst (pf_exponent [101; 45; 50; 56; 48] 0) - len [50; 53] = -282.
 Proof. split; vm_compute; reflexivity. Qed.
+
+(* ---- ParseDecimal with dropped digits (more than 18 characters from the first non-zero digit on) -------------- *)
+
+Definition pd_exp (i start dotv n : Z) : Z :=
+  let dot := if dotv =? -1 then i else dotv in
+  let exp := (dot - start) - len_uint n in
+  if dot <? start then exp + 1 else exp.
+
+(* from the result of the scanning loop to the value *)
+Lemma parse_decimal_of_scan sg l i start dotv n :
+  (sg = [] \/ sg = [45]) -> (sg = [] -> match l with c :: _ => c <> 45 | [] => True end) ->
+  pd_scan l (len sg) (-1) (-1) 0 = (i, start, dotv, n) ->
+  ((i =? 1) && (dotv =? 0)) = false -> start <> -1 ->
+  1 <= n < 2 ^ 64 -> -290 <= pd_exp i start dotv n <= 285 ->
+  exists v : bin64, parse_decimal (sg ++ l) = Ok (B2SF v, i) /\ is_finite v = true /\
+                    approx 5 (B2R v) (dec_real (sign_neg sg) n (pd_exp i start dotv n)).
+Proof.
+  intros Hsg Hns Hscan Hlone Hstart Hn Hexp.
+  assert (Hneg : match sg ++ l with c :: _ => c =? 45 | [] => false end = sign_neg sg /\
+                 (if sign_neg sg then tl (sg ++ l) else sg ++ l) = l /\ (if sign_neg sg then 1 else 0) = len sg).
+  { destruct Hsg as [-> | ->]; [|repeat split].
+    cbn [app sign_neg]. split; [|split; reflexivity]. specialize (Hns eq_refl). destruct l as [|c r]; [reflexivity|]. lia. }
+  destruct Hneg as (Hneg1 & Hneg2 & Hneg3).
+  unfold parse_decimal. rewrite Hneg1, Hneg2, Hneg3, Hscan. cbn [fst snd]. rewrite Hlone.
+  replace (start =? -1) with false by lia. cbv zeta. fold (pd_exp i start dotv n). set (exp := pd_exp i start dotv n) in *.
+  replace (1023 <? exp) with false by lia. replace (exp <? -1022) with false by lia.
+  destruct (pd_arith_accuracy (sign_neg sg) n exp i Hn Hexp) as (v & Hv & HvF & Hva). cbv zeta in Hv. rewrite Hv.
+  exists v. split; [reflexivity|]. split; assumption.
+Qed.
+
+Lemma pd_skip ds : all_digits ds -> forall rest i start dot n, start <> -1 -> 18 <= i - start ->
+  pd_scan (ds ++ rest) i start dot n = pd_scan rest (i + len ds) start dot n.
+Proof.
+  intros Hd. induction Hd as [|c r Hc Hr IH]; intros rest i start dot n Hs Hi.
+  - cbn [app]. change (len (@nil Z)) with 0. rewrite Z.add_0_r. reflexivity.
+  - cbn [app pd_scan]. rewrite Hc. replace (start =? -1) with false by lia. replace (i - start <? 18) with false by lia.
+    rewrite IH by lia. rewrite len_cons. f_equal. lia.
+Qed.
+
+(* the value of a dropped tail: the shared last step *)
+Lemma pd_dropped_finish (neg : bool) n T R e (v : bin64) :
+  10000000000000000 <= n < 2 ^ 64 -> 0 <= T -> 0 <= R < 10 ^ T -> -290 <= e <= 285 ->
+  approx 5 (B2R v) (dec_real neg n e) ->
+  let V := ((if neg then - IZR (n * 10 ^ T + R) else IZR (n * 10 ^ T + R)) * Rp10 (e - T))%R in
+  (Rabs (B2R v - V) <= 7 * uu * Rabs V)%R /\ (Rabs (B2R v - round64 V) <= / 100000000000000 * Rabs (round64 V))%R.
+Proof.
+  intros Hn HT HR He Ha. rewrite dec_real_Rp10 in Ha. apply (dropped_digits_rel neg n T R e (B2R v) Hn HT HR He Ha).
+Qed.
+
+Lemma digits18_ge d1 t : nonzero_digit d1 -> all_digits t -> len t = 16 \/ len t = 17 ->
+  10000000000000000 <= dec_value (d1 :: t) < 1000000000000000000 /\ len_uint (dec_value (d1 :: t)) = 1 + len t.
+Proof.
+  intros Hd Ht Hl. destruct (len_uint_dec_value d1 t Hd Ht ltac:(rewrite len_cons; lia)) as [HL Hb]. rewrite len_cons in HL, Hb.
+  split; [|exact HL]. unfold nonzero_digit in Hd.
+  unfold dec_value in *. change (dec_value_from 0 (d1 :: t)) with (dec_value_from (d1 - 48) t) in *.
+  pose proof (dec_value_from_bounds t Ht (d1 - 48) ltac:(lia)) as B.
+  destruct Hl as [Hl|Hl]; rewrite Hl in *.
+  - change (10 ^ 16) with 10000000000000000 in B. change (10 ^ (1 + 16)) with 100000000000000000 in Hb. lia.
+  - change (10 ^ 17) with 100000000000000000 in B. change (10 ^ (1 + 17)) with 1000000000000000000 in Hb. lia.
+Qed.
+
+Lemma dec_real_split (neg : bool) D e : ((if neg then - IZR D else IZR D) * Rp10 e)%R = dec_real neg D e.
+Proof. symmetry. apply dec_real_Rp10. Qed.
+
+(* 18 or more integer digits:  -? 0..0 d1 ip1 ip2 [. fp]  with |d1 ip1| = 18 kept, ip2 and fp dropped *)
+Theorem parse_decimal_accuracy_trunc_int_proof : forall sg zs d1 ip1 ip2 fp (dot : bool) tail,
+  (sg = [] \/ sg = [45]) -> all_zeros zs -> nonzero_digit d1 -> all_digits ip1 -> len ip1 = 17 ->
+  all_digits ip2 -> all_digits fp -> (dot = false -> fp = []) -> ends_mant dot tail -> len ip2 <= 285 ->
+  exists (v : bin64) k,
+    parse_decimal (sg ++ zs ++ (d1 :: ip1) ++ ip2 ++ (if dot then 46 :: fp else []) ++ tail) = Ok (B2SF v, k) /\
+    is_finite v = true /\
+    let V := dec_real (sign_neg sg) (dec_value ((d1 :: ip1) ++ ip2 ++ fp)) (- len fp) in
+    (Rabs (B2R v - V) <= 7 * uu * Rabs V)%R /\ (Rabs (B2R v - round64 V) <= / 100000000000000 * Rabs (round64 V))%R.
+Proof.
+  intros sg zs d1 ip1 ip2 fp dot tail Hsg Hzs Hd1 Hip1 Hl1 Hip2 Hfp Hdotfp Hend Hl2.
+  set (st := len sg). assert (Hst : 0 <= st) by apply len_nonneg.
+  pose proof (len_nonneg zs) as Lz. pose proof (len_nonneg ip2) as L2. pose proof (len_nonneg fp) as L3.
+  destruct (digits18_ge d1 ip1 Hd1 Hip1 ltac:(lia)) as [Hnb HLn]. set (n := dec_value (d1 :: ip1)) in *.
+  assert (Hnv : n = dec_value_from (d1 - 48) ip1) by reflexivity.
+  assert (Hd1' : 1 <= d1 - 48 <= 9) by (unfold nonzero_digit in Hd1; lia).
+  set (l := zs ++ (d1 :: ip1) ++ ip2 ++ (if dot then 46 :: fp else []) ++ tail).
+  set (i := st + len zs + 18 + len ip2 + (if dot then 1 + len fp else 0)).
+  assert (Hscan : pd_scan l st (-1) (-1) 0 = (i, st + len zs, (if dot then st + len zs + 18 + len ip2 else -1), n)).
+  { unfold l, i. rewrite pd_zeros by exact Hzs. cbn [app]. rewrite pd_first by exact Hd1.
+    rewrite pd_digits by (try assumption; try lia; rewrite <- Hnv; unfold two64; lia). rewrite <- Hnv.
+    rewrite pd_skip by (try assumption; lia).
+    destruct dot.
+    - cbn [app]. rewrite pd_dot. rewrite pd_skip by (try assumption; lia).
+      rewrite pd_tail by (replace (st + len zs + 1 + len ip1 + len ip2 =? -1) with false by lia; exact Hend).
+      f_equal. f_equal. f_equal; lia. lia.
+    - cbn [app]. rewrite pd_tail by exact Hend. f_equal. f_equal. f_equal. lia. }
+  assert (Hexp : pd_exp i (st + len zs) (if dot then st + len zs + 18 + len ip2 else -1) n = len ip2).
+  { unfold pd_exp, i. rewrite HLn, Hl1. destruct dot.
+    - replace (st + len zs + 18 + len ip2 =? -1) with false by lia. cbv zeta.
+      replace (st + len zs + 18 + len ip2 <? st + len zs) with false by lia. lia.
+    - change (-1 =? -1) with true. cbv zeta iota.
+      replace (st + len zs + 18 + len ip2 + 0 <? st + len zs) with false by lia. lia. }
+  destruct (parse_decimal_of_scan sg l i (st + len zs) (if dot then st + len zs + 18 + len ip2 else -1) n Hsg) as (v & Hv & HvF & Hva); try exact Hscan.
+  { intros _. unfold l. destruct Hzs as [|z zs' Hz _]; cbn [app]; [unfold nonzero_digit in Hd1; lia|lia]. }
+  { unfold i. destruct dot; lia. }
+  { lia. }
+  { change (2 ^ 64) with 18446744073709551616. lia. }
+  { rewrite Hexp. lia. }
+  rewrite Hexp in Hva. exists v, i. split; [exact Hv|]. split; [exact HvF|]. cbv zeta.
+  set (T := len ip2 + len fp). set (R := dec_value (ip2 ++ fp)).
+  assert (Hdrop : all_digits (ip2 ++ fp)) by (apply Forall_app; split; assumption).
+  assert (HRb : 0 <= R < 10 ^ T) by (pose proof (dec_value_lt_pow _ Hdrop) as H; rewrite len_app in H; exact H).
+  assert (HD : dec_value ((d1 :: ip1) ++ ip2 ++ fp) = n * 10 ^ T + R).
+  { unfold dec_value at 1. rewrite dec_value_from_app. fold (dec_value (d1 :: ip1)). fold n.
+    rewrite (dec_value_from_lin _ Hdrop). rewrite len_app. reflexivity. }
+  rewrite HD. rewrite <- dec_real_split. replace (- len fp) with (len ip2 - T) by (unfold T; lia).
+  apply pd_dropped_finish; try assumption; try lia; change (2 ^ 64) with 18446744073709551616; lia.
+Qed.
+
+(* the dot among the first 18 characters:  -? 0..0 d1 ip' . fp1 fp2  with |d1 ip' . fp1| = 18 kept (17 digits), fp2 dropped *)
+Theorem parse_decimal_accuracy_trunc_dot_proof : forall sg zs d1 ip' fp1 fp2 tail,
+  (sg = [] \/ sg = [45]) -> all_zeros zs -> nonzero_digit d1 -> all_digits ip' -> all_digits fp1 ->
+  len ip' + len fp1 = 16 -> all_digits fp2 -> ends_mant true tail ->
+  exists (v : bin64) k,
+    parse_decimal (sg ++ zs ++ (d1 :: ip') ++ 46 :: fp1 ++ fp2 ++ tail) = Ok (B2SF v, k) /\
+    is_finite v = true /\
+    let V := dec_real (sign_neg sg) (dec_value ((d1 :: ip') ++ fp1 ++ fp2)) (- (len fp1 + len fp2)) in
+    (Rabs (B2R v - V) <= 7 * uu * Rabs V)%R /\ (Rabs (B2R v - round64 V) <= / 100000000000000 * Rabs (round64 V))%R.
+Proof.
+  intros sg zs d1 ip' fp1 fp2 tail Hsg Hzs Hd1 Hip Hfp1 Hl16 Hfp2 Hend.
+  set (st := len sg). assert (Hst : 0 <= st) by apply len_nonneg.
+  pose proof (len_nonneg zs) as Lz. pose proof (len_nonneg ip') as L1. pose proof (len_nonneg fp1) as L2. pose proof (len_nonneg fp2) as L3.
+  assert (Hkept : all_digits (ip' ++ fp1)) by (apply Forall_app; split; assumption).
+  destruct (digits18_ge d1 (ip' ++ fp1) Hd1 Hkept ltac:(rewrite len_app; lia)) as [Hnb HLn]. rewrite len_app in HLn.
+  set (n := dec_value (d1 :: ip' ++ fp1)) in *.
+  assert (Hd1' : 1 <= d1 - 48 <= 9) by (unfold nonzero_digit in Hd1; lia).
+  set (m := dec_value_from (d1 - 48) ip').
+  assert (Hnv : n = dec_value_from m fp1) by (unfold m; rewrite <- dec_value_from_app; reflexivity).
+  assert (Hm : 0 <= m < 100000000000000000).
+  { pose proof (dec_value_from_bounds ip' Hip (d1 - 48) ltac:(lia)) as B. fold m in B.
+    assert (10 ^ len ip' <= 10 ^ 16) by (apply Z.pow_le_mono_r; lia). change (10 ^ 16) with 10000000000000000 in *.
+    assert (0 < 10 ^ len ip') by (apply Z.pow_pos_nonneg; lia). nia. }
+  set (l := zs ++ (d1 :: ip') ++ 46 :: fp1 ++ fp2 ++ tail).
+  set (i := st + len zs + 18 + len fp2).
+  assert (Hscan : pd_scan l st (-1) (-1) 0 = (i, st + len zs, st + len zs + 1 + len ip', n)).
+  { unfold l, i. rewrite pd_zeros by exact Hzs. cbn [app]. rewrite pd_first by exact Hd1.
+    rewrite pd_digits by (try assumption; try lia; fold m; unfold two64; lia). fold m.
+    rewrite pd_dot.
+    rewrite pd_digits by (try assumption; try lia; rewrite <- Hnv; unfold two64; lia). rewrite <- Hnv.
+    rewrite pd_skip by (try assumption; lia).
+    rewrite pd_tail by (replace (st + len zs + 1 + len ip' =? -1) with false by lia; exact Hend).
+    f_equal. f_equal. f_equal. lia. }
+  assert (Hexp : pd_exp i (st + len zs) (st + len zs + 1 + len ip') n = - len fp1).
+  { unfold pd_exp. rewrite HLn.
+    replace (st + len zs + 1 + len ip' =? -1) with false by lia. cbv zeta.
+    replace (st + len zs + 1 + len ip' <? st + len zs) with false by lia. lia. }
+  destruct (parse_decimal_of_scan sg l i (st + len zs) (st + len zs + 1 + len ip') n Hsg) as (v & Hv & HvF & Hva); try exact Hscan.
+  { intros _. unfold l. destruct Hzs as [|z zs' Hz _]; cbn [app]; [unfold nonzero_digit in Hd1; lia|lia]. }
+  { unfold i. lia. }
+  { lia. }
+  { change (2 ^ 64) with 18446744073709551616. lia. }
+  { rewrite Hexp. lia. }
+  rewrite Hexp in Hva. exists v, i. split; [exact Hv|]. split; [exact HvF|]. cbv zeta.
+  set (T := len fp2). set (R := dec_value fp2).
+  assert (HRb : 0 <= R < 10 ^ T) by exact (dec_value_lt_pow _ Hfp2).
+  assert (HD : dec_value ((d1 :: ip') ++ fp1 ++ fp2) = n * 10 ^ T + R).
+  { replace ((d1 :: ip') ++ fp1 ++ fp2) with ((d1 :: ip' ++ fp1) ++ fp2) by (cbn [app]; rewrite <- app_assoc; reflexivity).
+    unfold dec_value at 1. rewrite dec_value_from_app. fold (dec_value (d1 :: ip' ++ fp1)). fold n.
+    rewrite (dec_value_from_lin _ Hfp2). reflexivity. }
+  rewrite HD. rewrite <- dec_real_split. replace (- (len fp1 + T)) with (- len fp1 - T) by lia.
+  apply pd_dropped_finish; try assumption; try lia; change (2 ^ 64) with 18446744073709551616; lia.
+Qed.
+
+(* no integer part and more than 18 significant digits:  -? 0..0 . 0..0 d1 sp1 sp2  with |d1 sp1| = 18 kept, sp2 dropped *)
+Theorem parse_decimal_accuracy_trunc_frac_proof : forall sg zs1 zs2 d1 sp1 sp2 tail,
+  (sg = [] \/ sg = [45]) -> all_zeros zs1 -> all_zeros zs2 -> nonzero_digit d1 -> all_digits sp1 -> len sp1 = 17 ->
+  all_digits sp2 -> ends_mant true tail -> len zs2 + 18 <= 290 ->
+  exists (v : bin64) k,
+    parse_decimal (sg ++ zs1 ++ 46 :: zs2 ++ (d1 :: sp1) ++ sp2 ++ tail) = Ok (B2SF v, k) /\
+    is_finite v = true /\
+    let V := dec_real (sign_neg sg) (dec_value ((d1 :: sp1) ++ sp2)) (- (len zs2 + 18 + len sp2)) in
+    (Rabs (B2R v - V) <= 7 * uu * Rabs V)%R /\ (Rabs (B2R v - round64 V) <= / 100000000000000 * Rabs (round64 V))%R.
+Proof.
+  intros sg zs1 zs2 d1 sp1 sp2 tail Hsg Hz1 Hz2 Hd1 Hsp1 Hl1 Hsp2 Hend Hlz.
+  set (st := len sg). assert (Hst : 0 <= st) by apply len_nonneg.
+  pose proof (len_nonneg zs1) as Lz1. pose proof (len_nonneg zs2) as Lz2. pose proof (len_nonneg sp2) as L2.
+  destruct (digits18_ge d1 sp1 Hd1 Hsp1 ltac:(lia)) as [Hnb HLn]. set (n := dec_value (d1 :: sp1)) in *.
+  assert (Hnv : n = dec_value_from (d1 - 48) sp1) by reflexivity.
+  assert (Hd1' : 1 <= d1 - 48 <= 9) by (unfold nonzero_digit in Hd1; lia).
+  set (l := zs1 ++ 46 :: zs2 ++ (d1 :: sp1) ++ sp2 ++ tail).
+  set (i := st + len zs1 + 1 + len zs2 + 18 + len sp2).
+  assert (Hscan : pd_scan l st (-1) (-1) 0 = (i, st + len zs1 + 1 + len zs2, st + len zs1, n)).
+  { unfold l, i. rewrite pd_zeros by exact Hz1. rewrite pd_dot. rewrite pd_zeros by exact Hz2.
+    cbn [app]. rewrite pd_first by exact Hd1.
+    rewrite pd_digits by (try assumption; try lia; rewrite <- Hnv; unfold two64; lia). rewrite <- Hnv.
+    rewrite pd_skip by (try assumption; lia).
+    rewrite pd_tail by (replace (st + len zs1 =? -1) with false by lia; exact Hend).
+    f_equal. f_equal. f_equal. lia. }
+  assert (Hexp : pd_exp i (st + len zs1 + 1 + len zs2) (st + len zs1) n = - (len zs2 + 18)).
+  { unfold pd_exp. rewrite HLn, Hl1.
+    replace (st + len zs1 =? -1) with false by lia. cbv zeta.
+    replace (st + len zs1 <? st + len zs1 + 1 + len zs2) with true by lia. lia. }
+  destruct (parse_decimal_of_scan sg l i (st + len zs1 + 1 + len zs2) (st + len zs1) n Hsg) as (v & Hv & HvF & Hva); try exact Hscan.
+  { intros _. unfold l. destruct Hz1 as [|z zs' Hz _]; cbn [app]; lia. }
+  { unfold i. lia. }
+  { lia. }
+  { change (2 ^ 64) with 18446744073709551616. lia. }
+  { rewrite Hexp. lia. }
+  rewrite Hexp in Hva. exists v, i. split; [exact Hv|]. split; [exact HvF|]. cbv zeta.
+  set (T := len sp2). set (R := dec_value sp2).
+  assert (HRb : 0 <= R < 10 ^ T) by exact (dec_value_lt_pow _ Hsp2).
+  assert (HD : dec_value ((d1 :: sp1) ++ sp2) = n * 10 ^ T + R).
+  { unfold dec_value at 1. rewrite dec_value_from_app. fold (dec_value (d1 :: sp1)). fold n.
+    rewrite (dec_value_from_lin _ Hsp2). reflexivity. }
+  rewrite HD. rewrite <- dec_real_split. replace (- (len zs2 + 18 + T)) with (- (len zs2 + 18) - T) by lia.
+  apply pd_dropped_finish; try assumption; try lia; change (2 ^ 64) with 18446744073709551616; lia.
+Qed.
